@@ -448,6 +448,10 @@ def run(report, prog, tier):
     rule_budget(report, prog, res)
     rule_driver_lr(report, prog)
     rule_psl_radio(report, prog)
+    # the negotiated link MIU is obeyed by the link management PDUs as well: the service discovery batching charges every entry
+    # against the peer's MIU (C10-R1), reported here as C19-R5
+    from . import c10
+    report.run_as({'C10-R1': 'C19-R5'}, c10.rule_sd_budget, prog, res)
     report.trusted += ['NFC-DEP: LR values (64,128,192,254) bound the transport data field CMD0 CMD1 PFB [DID] [NAD] payload',
                        'LLCP defaults: MIU 128, LTO 100 ms, LSC 0']
     report.assumptions += ['option domains brs 0..2, lri/lrt 0..3, rwt 0..14']
